@@ -48,7 +48,7 @@ def run_variant(mod, base_model, v, tier):
     try:
         ctx = run_rules(mod, m, tier)
         floors = check_floors(mod, ctx)
-        if floors:
+        if floors and not ctx.violations():
             raise AnchorError('; '.join(floors))
     except AnchorError as e:
         return {'variant': v.name, 'status': 'anchor', 'why': str(e)}
